@@ -444,6 +444,39 @@ def memchr_(ex, st, fr, ins, name, argv):
     return out
 
 
+def memcmp_(ex, st, fr, ins, name, argv):
+    """memcmp(a, b, n) with a concrete length: forks on the first position at which the bytes differ (result = difference
+    of the two bytes as unsigned char) and the all-equal case (0)"""
+    a, b, n = argv[0], argv[1], argv[2]
+    if not tm.is_ic(n) or not isinstance(a, Ptr) or a.region is None or not isinstance(b, Ptr) or b.region is None:
+        raise Unsupported('memcmp with symbolic length or pointer')
+    k = n.args[0]
+    if k > 64:
+        raise Unsupported('memcmp of %d bytes' % k)
+    res, normal = ins.res, ins.a[3]
+    out = []
+    cur = st
+    for i in range(k):
+        x = ex.load(cur, Ptr(a.region, a.off + i), ('int', 8))
+        y = ex.load(cur, Ptr(b.region, b.off + i), ('int', 8))
+        ne = mk('icmp', 'i1', 'ne', x, y)
+        if tm.is_ic(ne):
+            if ne.args[0] == 1:
+                _finish(ex, cur, res, mk('sub', 'i32', mk('zext', 'i32', x), mk('zext', 'i32', y)), normal)
+                out.append(cur)
+                return out
+            continue
+        s2 = cur.clone()
+        if s2.assume(ne) is not False:
+            _finish(ex, s2, res, mk('sub', 'i32', mk('zext', 'i32', x), mk('zext', 'i32', y)), normal)
+            out.append(s2)
+        if cur.assume(tm.negate(ne)) is False:
+            return out
+    _finish(ex, cur, res, tm.ic('i32', 0), normal)
+    out.append(cur)
+    return out
+
+
 def arbitrary_string(ex, st, fr, ins, name, argv):
     """phqv_arbitrary_string(): reference to a std::string with arbitrary contents (only passed on to summarised
     functions whose contract does not depend on a particular content)"""
@@ -507,6 +540,8 @@ def containers():
     d['phqv_any_string'] = any_string
     d['phqv_arbitrary_string'] = arbitrary_string
     d['memchr'] = memchr_
+    d['memcmp'] = memcmp_
+    d['bcmp'] = memcmp_
     d['__patterns__'] = d['__patterns__'] + [(lambda n: is_sto(n) == 'stof', sto_float('f32')), (lambda n: is_sto(n) == 'stod', sto_float('f64')),
                                              (lambda n: is_sto(n) == 'stold', sto_float('f80'))]
     return d
